@@ -2,6 +2,7 @@ package tlsx
 
 import (
 	"github.com/tjfoc/gmsm/gmtls"
+	"io"
 )
 
 // Suite ids of the GM/T 0024 suites (typed from the standard, not taken from the package).
@@ -57,4 +58,18 @@ func TLSClient(p *PKI, seed string) *gmtls.Config {
 	c.RootCAs = p.RootsStd
 	c.ServerName = ServerName
 	return c
+}
+
+// ShortRand hands out at most N bytes per Read call (io.Reader allows short reads; code that fills key material with a
+// single Read instead of io.ReadFull is then left with stale or zero bytes).
+type ShortRand struct {
+	R io.Reader
+	N int
+}
+
+func (s ShortRand) Read(p []byte) (int, error) {
+	if len(p) > s.N {
+		p = p[:s.N]
+	}
+	return s.R.Read(p)
 }
